@@ -115,6 +115,9 @@ func c04Instrument(src string) string {
 	return sb.String()
 }
 
+// c04QuickTemplates: the first this-many templates of c04Base are scheduled in the quick tier.
+const c04QuickTemplates = 18
+
 var c04Base = []string{
 	"{% for i in l %}{% cycle 'a', 'b' %}{{ i }}{% endfor %}",
 	"{% assign x = 'A' %}{{ x }}{% assign x = x | append: '!' %}{{ x }}",
@@ -132,6 +135,9 @@ var c04Base = []string{
 	`R{% include "` + c04SelfName + `" %}`,                              // 60 nested includes per render
 	"{{ site }}|{{ site.page.title }}|{{ site.list }}|{{ m }}|{{ dl }}", // whole containers holding (pointer) Drops are printed
 	`{{ x }}<{% include "` + c04FailName + `" %}>`,                      // something is evaluated BEFORE the include: a render can be parked between its start and its include
+	// block headers whose arguments depend on where an ENCLOSING loop is: two renders of the same node are in flight with different arguments
+	"{% for n in (1..2) %}{% tablerow i in l cols: n %}{{ i }}{% endtablerow %}{% endfor %}",
+	"{% for n in (1..2) %}{% for i in l limit: n offset: n %}{{ i }}{% cycle 'a', 'b', 'c' %}{% endfor %}{% case n %}{% when 2 %}two{% else %}{{ n }}{% endcase %}{% endfor %}",
 	// thorough
 	"{% assign l = l | reverse %}{% for i in l %}{{ i }}{% endfor %}{% assign x = nil %}{{ x }}",
 	"{% for x in l %}{{ x }}{% endfor %}{{ x }}{{ forloop }}",
@@ -163,7 +169,7 @@ type c04Scenario struct {
 }
 
 func c04Scenarios(tier string) []c04Scenario {
-	nT := 16
+	nT := c04QuickTemplates
 	if tier == "thorough" {
 		nT = len(c04Base)
 	}
@@ -303,13 +309,17 @@ func c04Solo(nT int, op c04Op) string {
 	c04Cur = nil
 	w := c04NewWorld(nT, op.t)
 	s := w.do(op)
+	if strings.HasPrefix(s, "PANIC") {
+		// no template of the list panics when rendered alone: this would make every comparison below vacuous
+		panic(explore.BaselineFailure{Msg: "harness: " + k + " run alone: " + s})
+	}
 	c04.solo[k] = s
 	return s
 }
 
 func c04Families(tier string) []explore.Family {
 	scen := c04Scenarios(tier)
-	nT := 16
+	nT := c04QuickTemplates
 	bound2, bound3 := 2, 1
 	maxExec := 200000
 	if tier == "thorough" {
@@ -446,6 +456,12 @@ func c04Families(tier string) []explore.Family {
 			}
 		})
 		c04Cur = nil
+		if f := os.Getenv("VERIF_C04_DEBUG"); f != "" && strings.Contains(sc.name, f) {
+			if fh, err := os.OpenFile(os.Getenv("VERIF_C04_DEBUG_FILE"), os.O_APPEND|os.O_CREATE|os.O_WRONLY, 0o644); err == nil {
+				fmt.Fprintf(fh, "C04 debug: %s shard %d: bound=%d schedules=%d outcomes=%d truncated=%v solo=%.300q\n", sc.name, shard, bound, execs, len(outcomes), truncated, fmt.Sprint(want))
+				fh.Close()
+			}
+		}
 		r.Count("schedules_explored", int64(execs))
 		r.Count("library_sync_points_scheduled", syncPoints)
 		if execs > 0 {
